@@ -27,6 +27,7 @@ func init() {
 	add(&Property{
 		ID: "C01", Title: "csync locks: one writer or many readers, and only between acquire and release",
 		Sels: []Sel{
+			{Run: "Gcontra", Scope: []string{"csync"}},
 			{Run: "Gstale", Scope: []string{"csync"}},
 			{Run: "Gcsync", Rules: []string{"R12", "R16"}, Exclude: []string{"writeWaiting", "release-called"}},
 			{Run: "R1", Scope: []string{"csync", "broadcast"}, Rules: []string{"R1a", "R1b", "R1d", "R11a"}},
@@ -41,6 +42,7 @@ func init() {
 	add(&Property{
 		ID: "C02", Title: "csync locks: grantable waiters are granted, cancelled waiters leave no trace",
 		Sels: []Sel{
+			{Run: "Gcontra", Scope: []string{"csync"}},
 			{Run: "R2", Scope: []string{"csync", "broadcast"}, Rules: []string{"R2a", "R2b", "R2c", "R2d"}, Prefixes: []string{"csync."}},
 			{Run: "Gcsync", Rules: []string{"R12"}, Contains: []string{"writeWaiting", "grant(nreaders++)", "return-failure", "release-called", "ungrant("}},
 			{Run: "R17", Scope: []string{"csync"}, Rules: []string{"R17", "R2f"}},
@@ -55,6 +57,7 @@ func init() {
 	add(&Property{
 		ID: "C03", Title: "broadcast: a waiter never misses a broadcast issued after it sampled the state",
 		Sels: []Sel{
+			{Run: "Gcontra", Scope: []string{"broadcast"}},
 			{Run: "R2", Rules: []string{"R2e"}},
 			{Run: "R2", Rules: []string{"R2a", "R2c"}, Prefixes: []string{"broadcast."}},
 			{Run: "R2", Rules: []string{"R2d"}},
@@ -70,6 +73,7 @@ func init() {
 	add(&Property{
 		ID: "C04", Title: "routine: at most one instance of the managed function executes at a time",
 		Sels: []Sel{
+			{Run: "Gcontra", Scope: []string{"routine"}},
 			{Run: "R3", Scope: []string{"routine"}, Prefixes: []string{"routine."}},
 			{Run: "Groutine", Rules: []string{"R12"}, Contains: []string{"status-writes"}},
 			{Run: "Groutine", Rules: []string{"R5b"}},
@@ -85,6 +89,7 @@ func init() {
 	add(&Property{
 		ID: "C05", Title: "routine: superseded instances are cancelled; survivor has latest context+state",
 		Sels: []Sel{
+			{Run: "Gcontra", Scope: []string{"routine"}},
 			{Run: "Groutine", Rules: []string{"R4", "R12"}, Contains: []string{"cancel", "derived-context", "current-context", "status-reset", "go-execute", "store-state-before-rebuild", "stored-state-reaches-routine", "closure-captures-copy", "status-writes"}},
 			{Run: "Groutine", Rules: []string{"R5b"}},
 			{Run: "R1", Scope: []string{"routine"}, Rules: []string{"R1a"}, Prefixes: []string{"routine."}},
@@ -99,6 +104,7 @@ func init() {
 	add(&Property{
 		ID: "C06", Title: "keyed: the key set equals what Set/Remove/Sync/refs asked for, delays included",
 		Sels: []Sel{
+			{Run: "Gcontra", Scope: []string{"keyed"}},
 			{Run: "Gmapinit", Scope: []string{"keyed"}},
 			{Run: "Gkeyed", Rules: []string{"R6b", "R16"}},
 			{Run: "Gkeyed", Rules: []string{"R5b", "R12"}, Contains: []string{"AddKeyRef", "Release", "RemoveKey"}, Topics: []string{"removal"}},
@@ -114,6 +120,7 @@ func init() {
 	add(&Property{
 		ID: "C07", Title: "keyed: per key one live routine, cancelled on removal, retried while wanted",
 		Sels: []Sel{
+			{Run: "Gcontra", Scope: []string{"keyed"}},
 			{Run: "Gmapinit", Scope: []string{"keyed"}},
 			{Run: "R3", Scope: []string{"keyed"}, Prefixes: []string{"keyed."}},
 			{Run: "Gkeyed", Rules: []string{"R4", "R5a", "R5c"}},
@@ -129,6 +136,7 @@ func init() {
 	add(&Property{
 		ID: "C08", Title: "refcount: each resolved value is released exactly once, never exposed afterwards",
 		Sels: []Sel{
+			{Run: "Gcontra", Scope: []string{"refcount"}},
 			{Run: "Gmapinit", Scope: []string{"refcount"}},
 			{Run: "Grefcount", Rules: []string{"R7", "R16"}},
 			{Run: "Grefcount", Rules: []string{"R12"}, Contains: []string{"SetContext", "released#"}, Topics: []string{"last-ref"}},
@@ -144,6 +152,7 @@ func init() {
 	add(&Property{
 		ID: "C09", Title: "refcount: referenced+context means resolved, by one resolver at a time",
 		Sels: []Sel{
+			{Run: "Gcontra", Scope: []string{"refcount"}},
 			{Run: "R3", Scope: []string{"refcount"}, Prefixes: []string{"refcount."}},
 			{Run: "Grefcount", Rules: []string{"R6a"}},
 			{Run: "Grefcount", Rules: []string{"R12", "R7"}, Contains: []string{"released", "AddRef", "begins-with-shutdown", "generation-bump", "store-result", "error-container"}},
@@ -160,6 +169,7 @@ func init() {
 	add(&Property{
 		ID: "C10", Title: "refcount: consumers get the current value, are cancelled when it is invalidated",
 		Sels: []Sel{
+			{Run: "Gcontra", Scope: []string{"refcount"}},
 			{Run: "Grefcount", Rules: []string{"R12", "R13e"}, Contains: []string{"Access", "Wait", "Resolve/", "ResolveWithReleased", "released", "AddRefPromise"}},
 			{Run: "Grefcount", Rules: []string{"R7"}, Contains: []string{"begins-with-shutdown", "generation-bump", "store-result"}},
 			{Run: "R2", Scope: []string{"refcount", "broadcast"}, Rules: []string{"R2a", "R2b", "R2c", "R2d"}, Prefixes: []string{"refcount."}},
@@ -177,6 +187,7 @@ func init() {
 	add(&Property{
 		ID: "C11", Title: "promise: resolved at most once, every awaiter sees that result and returns",
 		Sels: []Sel{
+			{Run: "Gcontra", Scope: []string{"promise"}},
 			{Run: "Gpromise", Rules: []string{"R9", "R6a"}},
 			{Run: "R2", Scope: []string{"promise", "broadcast"}, Rules: []string{"R2a", "R2b", "R2c", "R2d"}, Prefixes: []string{"promise."}},
 			{Run: "R17", Scope: []string{"promise"}, Rules: []string{"R17", "R2f"}, Prefixes: []string{"promise.(*Promise)", "promise.(*PromiseContainer)"}, Exclude: []string{"return-received-error"}},
@@ -191,6 +202,7 @@ func init() {
 	add(&Property{
 		ID: "C12", Title: "cqueue/linkedlist: concurrent Push/Pop are linearizable and conserve elements",
 		Sels: []Sel{
+			{Run: "Gcontra", Scope: []string{"cqueue", "linkedlist"}},
 			{Run: "Gqueue", Rules: []string{"R10"}},
 			{Run: "R1", Scope: []string{"cqueue", "linkedlist"}, Rules: []string{"R1a", "R11a"}},
 		},
@@ -203,6 +215,7 @@ func init() {
 	add(&Property{
 		ID: "C13", Title: "no data races inside the library under any concurrent use of its concurrent APIs",
 		Sels: []Sel{
+			{Run: "Gcontra", Scope: ConcurrentPkgs},
 			{Run: "Gstale", Scope: ConcurrentPkgs},
 			{Run: "R1", Scope: ConcurrentPkgs, Rules: []string{"R1", "R11a", "R11c"}},
 			{Run: "R1ssa", Scope: ConcurrentPkgs, Rules: []string{"R1ssa"}},
@@ -218,6 +231,7 @@ func init() {
 	add(&Property{
 		ID: "C14", Title: "routine: exit status, restart rules and backoff follow the documented machine",
 		Sels: []Sel{
+			{Run: "Gcontra", Scope: []string{"routine", "backoff"}},
 			{Run: "Groutine", Rules: []string{"R12", "R5a", "R5b", "R5c"}},
 			{Run: "Gbackoff", Rules: []string{"R12"}},
 			{Run: "R2", Scope: []string{"routine", "broadcast"}, Rules: []string{"R2a", "R2b", "R2c"}, Prefixes: []string{"routine."}},
@@ -233,12 +247,13 @@ func init() {
 	add(&Property{
 		ID: "C15", Title: "ccontainer: atomic value cell whose waiters return exactly when satisfied",
 		Sels: []Sel{
+			{Run: "Gcontra", Scope: []string{"ccontainer"}},
 			{Run: "Gccontainer", Rules: []string{"R12"}},
 			{Run: "R2", Scope: []string{"ccontainer", "broadcast"}, Rules: []string{"R2a", "R2b", "R2c", "R2d"}, Prefixes: []string{"ccontainer."}},
 			{Run: "R17", Scope: []string{"ccontainer"}, Rules: []string{"R17", "R2f"}},
 			{Run: "R1", Scope: []string{"ccontainer"}, Rules: []string{"R1a"}},
 		},
-		Floors:      map[string]int{"R12": 5, "R2a": 1, "R2b": 2, "R2c": 1, "R17": 3, "R1a": 1},
+		Floors:      map[string]int{"R12": 5, "R2a": 1, "R2b": 1, "R2c": 1, "R17": 3, "R1a": 1},
 		Explanation: "val is accessed only inside the container's critical sections; SwapValue reads, calls the callback and stores in one section; every store of the cell broadcasts; WaitValueWithValidator validates and returns the value sampled with its subscription, re-samples only after a consumed event, returns the context's error only in the ctx arm and an error-channel value only when it is a non-nil error; the Wait* wrappers delegate to it. Between its last wait and a successful return the waiter enters the lock once (the returned value is the validated sample); SwapValue returns the cell value read in its section or what the callback made of it." + structural,
 		NotDecided:  "custom equal functions that are not equivalences; validator side effects.",
 		Assumptions: []string{A1, A3, A4},
@@ -247,6 +262,7 @@ func init() {
 	add(&Property{
 		ID: "C16", Title: "Once/MemoizeFunc: one call in flight, success kept forever, failure retried",
 		Sels: []Sel{
+			{Run: "Gcontra", Scope: []string{"promise", "memo"}},
 			{Run: "Gpromise", Rules: []string{"R8"}},
 			{Run: "R1", Scope: []string{"promise", "memo"}, Rules: []string{"R1a", "R1b", "R1d"}, Prefixes: []string{"promise.Once", "promise.(*Once)", "memo.", "promise.Promise."}},
 			{Run: "R17", Scope: []string{"promise"}, Rules: []string{"R17", "R2f"}, Prefixes: []string{"promise.(*Once)", "promise.(*Promise).Await/"}},
@@ -261,6 +277,7 @@ func init() {
 	add(&Property{
 		ID: "C17", Title: "ccall: the result is nil only if every function returned nil",
 		Sels: []Sel{
+			{Run: "Gcontra", Scope: []string{"ccall"}},
 			{Run: "Gccall"},
 			{Run: "R1", Scope: []string{"ccall"}, Rules: []string{"R1b"}},
 			{Run: "R2", Scope: []string{"ccall", "broadcast"}, Rules: []string{"R2a", "R2b", "R2c", "R2d"}, Prefixes: []string{"ccall."}},
@@ -275,6 +292,7 @@ func init() {
 	add(&Property{
 		ID: "C18", Title: "conc queue: bounded parallelism, every job exactly once, idle means done",
 		Sels: []Sel{
+			{Run: "Gcontra", Scope: []string{"conc", "linkedlist"}},
 			{Run: "Gconc"},
 			{Run: "R2", Scope: []string{"conc", "broadcast"}, Rules: []string{"R2a", "R2b", "R2c", "R2d"}, Prefixes: []string{"conc."}},
 			{Run: "R17", Scope: []string{"conc"}, Rules: []string{"R17", "R2f"}, Prefixes: []string{"conc.(*ConcurrentQueue).WaitIdle"}},
@@ -299,6 +317,8 @@ func init() {
 	add(&Property{
 		ID: "C20", Title: "sequential helpers match their reference models on every operation sequence",
 		Sels: []Sel{
+			{Run: "Gcontra", Scope: []string{"iocloser", "ioproxy", "ioseek", "iosizer", "unique"}},
+			{Run: "Gcontra", Scope: []string{"padding", "commonprefix", "prng"}},
 			{Run: "Gio"},
 			{Run: "R1", Scope: []string{"iocloser"}, Rules: []string{"R1a", "R11a"}},
 			{Run: "Gmapinit", Scope: []string{"unique"}},
